@@ -70,13 +70,10 @@ class BaseRandomLineAccessFile(collections.abc.Sequence, Generic[C], ABC):
         if self.closed:
             raise RuntimeError("Firstly open the file.")
 
-        if self._dirty:
-            for n in range(len(self)):
-                yield self._get_item(n)
-        else:
-            self._file_seek(0)
-            for n in range(len(self)):
-                yield self._read_next_line()
+        # every line is read through the index, as a sequential read from the file start would ignore user provided
+        # line offsets (subset, permutation) and would be disturbed by any other read that moves the file cursor
+        for n in range(len(self)):
+            yield self._get_item(n)
 
     @abstractmethod
     def _file_seek(self, offset: int):
